@@ -29,7 +29,7 @@ CLAIM = dict(
     note="Trusted: Python slice.indices/range and NumPy basic indexing as the model; " + SAN + ". Indices with fewer parts than axes and no "
          "ellipsis, out-of-range integer parts and step 0 are outside the accepted argument set (unchecked preconditions) and are not generated.",
     ref="DESIGN.md 4/C05")
-TARGETS_QUICK = [(n, "asan") for n in IX_BINS + V_BINS]
+TARGETS_QUICK = [(n, "asan") for n in IX_BINS + V_BINS] + [lambda: [ct_slice_target()]]
 
 # ---- op tables (mirror the harness sources) -----------------------------------------------------
 MULTI2 = ["m_I_I", "m_I_R", "m_R_I", "m_R_R", "m_I_E", "m_E_I", "m_R_E", "m_E_R", "m_Ra_Rb", "m_Rc_Rd", "m_Re_Rf",
@@ -514,6 +514,36 @@ VH_MAIN()
 """ % "\n".join("VS(%s, %s)" % (op, {v: k for k, v in M.ALIAS.items()}[code]) for op, code in PROBE_OPS.items())
 
 
+# ---- slice parts given as COMPILE-TIME constants (tuple{ct<s>, ct<e>, ct<st>}, None where omitted): one instantiation per triple over a
+#      reduced grid, executed over every extent 1..6 and the three shape kinds at the index level (normalisation of constant bounds)
+CT_BOUNDS = [None, -9, -2, 1, 9]
+CT_STEPS = [None, 1, 2, -1, -2]
+CT_TRIPLES = [(s_, e_, st_) for s_ in CT_BOUNDS for e_ in CT_BOUNDS for st_ in CT_STEPS]
+
+
+def ct_slice_text():
+    def c(v):
+        return "nm::None" if v is None else "nm::meta::ct<%d>{}" % v
+    lines = ['// generated by vf/checks/c05.py: single range part with compile-time-constant components', '#include "c05_index.hpp"', ""]
+    for k, (s_, e_, st_) in enumerate(CT_TRIPLES):
+        lines.append("VH_OP(ct_%d) { auto kind = in.i(); auto shape = in.vec(); const auto part = nmtools_tuple{%s, %s, %s}; const auto slices = nmtools_tuple<std::remove_cv_t<decltype(part)>>{part}; "
+                     "auto qs = read_queries(in); dispatch<1, 1>(out, kind, shape, slices, qs); }" % (k, c(s_), c(e_), c(st_)))
+    lines += ["", "VH_MAIN()", ""]
+    return "\n".join(lines)
+
+
+def ct_slice_target():
+    return B.Target("c05_ix_ct.cpp", "asan", text=ct_slice_text(), name="c05_ix_ct")
+
+
+def gen_ct_index(g, maxn):
+    for n in range(1, maxn + 1):
+        for k, (s_, e_, st_) in enumerate(CT_TRIPLES):
+            for kind in (0, 1, 2):
+                c = g.add("ix", "c05_ix_ct", "ct_%d" % k, "packed:ct", [n], [("R", s_, e_, st_)], "single", kind)
+                c.line = "%s ct_%d %d %s 0" % (c.cid, k, kind, fmt_vec([n]))
+
+
 def probe_variadic(ctx, g, maxn):
     """view::slice(a, tuple{None, ...}) does not compile when the tuple of parts is copy-deduced (CTAD): the compilation
     outcome itself is the observation.  Returns the binary or None."""
@@ -559,6 +589,12 @@ def run(ctx):
     pb = probe_variadic(ctx, g, maxn)
     if pb:
         bins[("c05_probe_variadic", "asan")] = pb
+    ctres = B.build([ct_slice_target()], quiet=True)[0]
+    if ctres.error:
+        ctx.inconc("generated translation unit c05_ix_ct (compile-time slice parts) does not compile: %s" % ctres.error[-600:])
+    else:
+        bins[("c05_ix_ct", "asan")] = ctres.binary
+        gen_ct_index(g, maxn)
 
     # ---- execute + judge, one binary at a time (results are dropped after a binary is judged) ----
     by_bin = {}
